@@ -92,6 +92,11 @@ func VerifC17Routing() {
 	}
 	baseClosed := make(chan struct{})
 	script := &vfs.Script{Conns: []net.Conn{peer}, Errs: []error{nil}, Hold: baseClosed}
+	if vf.Bool("a-peer-that-does-not-speak-tls-connects-first") { // its failure is temporary: only that connection is dropped
+		bad := &vfs.Peer{NotTLS: true}
+		bad.Conn = vf.AdversaryConnMode(nil, nil, 0, false, true, false)
+		script.Conns, script.Errs = []net.Conn{bad, peer}, []error{nil, nil}
+	}
 	if vf.Bool("closed-base-listener-reports-another-error") { // not every listener reports closure as net.ErrClosed
 		script.Final = errors.New("listener shut down")
 	}
